@@ -14,3 +14,4 @@ echo "check rc=$rc"
 git -C /verif checkout -- evidence/$PID.json 2>/dev/null
 # replays written while testing a seeded change are not kept
 rm -f /verif/replays/$PID-*.json
+python3 /verif/tools/extract.py >/dev/null 2>&1
